@@ -416,6 +416,7 @@ type ftr struct {
 	nilSlot  map[types.Object]int            // pointer-to-struct locals and results: slot of the nil flag
 	world    int                             // slot of the world value (-1: none)
 	signed   bool                            // signed mode
+	written  map[int]bool                    // slots of slices written in place (copy, Read): a parameter among them is returned
 	opaque   map[types.Object]string         // interface-typed parameters: calls on them are external functions <type>.<Method>
 	hoisted  map[*ast.CallExpr]int           // method call hoisted out of an expression -> temporary slot holding its result
 	pre      []string                        // statements to run before the statement being translated (hoisted calls)
@@ -668,7 +669,7 @@ func isFloat(ty types.Type) bool {
 
 func translateFn(q string, fd *ast.FuncDecl, globalsUsed map[string]bool) *fnOut {
 	t := &ftr{slots: map[types.Object]int{}, structs: map[types.Object]map[string]int{}, structOrder: map[types.Object][]int{},
-		readonly: map[types.Object]bool{}, nilSlot: map[types.Object]int{}, world: -1, opaque: map[types.Object]string{}, hoisted: map[*ast.CallExpr]int{}, globals: globalsUsed, calls: map[string]bool{}}
+		readonly: map[types.Object]bool{}, nilSlot: map[types.Object]int{}, world: -1, written: map[int]bool{}, opaque: map[types.Object]string{}, hoisted: map[*ast.CallExpr]int{}, globals: globalsUsed, calls: map[string]bool{}}
 	out := &fnOut{name: q}
 	t.signed = signedFns[q]
 	// receiver: a method that mentions its receiver gets one slot per field of
@@ -775,6 +776,19 @@ func translateFn(q string, fd *ast.FuncDecl, globalsUsed map[string]bool) *fnOut
 	}
 	if len(t.bad) > 0 {
 		body = fmt.Sprintf("SUnsupported %s", coqStr(strings.Join(t.bad, "; ")))
+	}
+	for sl := 0; sl < t.nparams; sl++ {
+		if t.written[sl] && sl != t.world {
+			dup := false
+			for _, o := range out.outs {
+				if o == sl {
+					dup = true
+				}
+			}
+			if !dup {
+				out.outs = append(out.outs, sl)
+			}
+		}
 	}
 	if t.world >= 0 {
 		out.outs = append(out.outs, t.world)
@@ -1066,7 +1080,15 @@ func (t *ftr) oracleRecv(x ast.Expr) (string, bool) {
 		return "", false
 	}
 	if _, isIface := tv.Type.Underlying().(*types.Interface); !isIface {
-		return "", false
+		// a pointer to an object of another package (e.g. *net.UDPConn) is external too
+		pt, isPtr := tv.Type.(*types.Pointer)
+		if !isPtr || t.world < 0 {
+			return "", false
+		}
+		nt, isNamed := pt.Elem().(*types.Named)
+		if !isNamed || nt.Obj().Pkg() == nil || nt.Obj().Pkg() == pkg {
+			return "", false
+		}
 	}
 	return inner.Sel.Name, true
 }
@@ -1076,16 +1098,33 @@ func (t *ftr) oracleRecv(x ast.Expr) (string, bool) {
 // bytes it read (at most that many) and an error; the bytes are stored into
 // buf from lo on, n is their number
 func (t *ftr) readFull(c *ast.CallExpr, nDest, errDest string) (string, bool) {
-	if !isPkgFunc(c, "io", "ReadFull") || len(c.Args) != 2 || t.world < 0 {
+	if t.world < 0 {
 		return "", false
 	}
-	pre, ok := t.oracleRecv(c.Args[0])
-	if !ok {
+	var pre, meth string
+	var bufArg ast.Expr
+	if isPkgFunc(c, "io", "ReadFull") && len(c.Args) == 2 {
+		p, ok := t.oracleRecv(c.Args[0])
+		if !ok {
+			return "", false
+		}
+		pre, meth, bufArg = p, "ReadFull", c.Args[1]
+	} else if sel, isSel := c.Fun.(*ast.SelectorExpr); isSel && sel.Sel.Name == "Read" && len(c.Args) == 1 {
+		// x.Read(buf) on an external reader: at most len(buf) bytes, stored from buf[0] on
+		p, ok := t.oracleRecv(sel.X)
+		if !ok {
+			return "", false
+		}
+		pre, meth, bufArg = p, "Read", c.Args[0]
+	} else {
 		return "", false
 	}
 	var base *ast.Ident
+	var baseSel *ast.SelectorExpr
 	lo, hi := "EN 0", ""
-	switch b := ast.Unparen(c.Args[1]).(type) {
+	switch b := ast.Unparen(bufArg).(type) {
+	case *ast.SelectorExpr:
+		baseSel = b
 	case *ast.Ident:
 		base = b
 	case *ast.SliceExpr:
@@ -1103,10 +1142,17 @@ func (t *ftr) readFull(c *ast.CallExpr, nDest, errDest string) (string, bool) {
 	default:
 		return "", false
 	}
-	bs, ok := t.slotOf(base)
+	var bs int
+	var ok bool
+	if baseSel != nil {
+		bs, ok = t.fieldSlot(baseSel)
+	} else {
+		bs, ok = t.slotOf(base)
+	}
 	if !ok {
 		return "", false
 	}
+	t.written[bs] = true
 	if hi == "" {
 		hi = fmt.Sprintf("ELen (EVar %d)", bs)
 	}
@@ -1116,7 +1162,7 @@ func (t *ftr) readFull(c *ast.CallExpr, nDest, errDest string) (string, bool) {
 	}
 	tmp := t.newSlot(nil, "_read", types.NewSlice(types.Typ[types.Uint8]))
 	w := t.world
-	call := fmt.Sprintf("SCall %s (%s) [LVar %d; LVar %d; %s]", coqStr(pre+".ReadFull"),
+	call := fmt.Sprintf("SCall %s (%s) [LVar %d; LVar %d; %s]", coqStr(pre+"."+meth),
 		exprList([]string{fmt.Sprintf("EVar %d", w), fmt.Sprintf("EBin OSub %s (%s) (%s)", ty, hi, lo)}), w, tmp, errDest)
 	splice := fmt.Sprintf("SSet (LVar %d) (EAppendSlice (EAppendSlice (ESlice (EVar %d) (EN 0) (%s)) (EVar %d)) (ESlice (EVar %d) (EBin OAdd %s (%s) (ELen (EVar %d))) (ELen (EVar %d))))",
 		bs, bs, lo, tmp, bs, ty, lo, tmp, bs)
@@ -1379,6 +1425,54 @@ func exprList(es []string) string {
 	return "ECons (" + es[0] + ") (" + exprList(es[1:]) + ")"
 }
 
+func (t *ftr) isExtRead(c *ast.CallExpr) bool {
+	if isPkgFunc(c, "io", "ReadFull") {
+		return true
+	}
+	if sel, isSel := c.Fun.(*ast.SelectorExpr); isSel && sel.Sel.Name == "Read" && len(c.Args) == 1 && t.world >= 0 {
+		_, ok := t.oracleRecv(sel.X)
+		return ok
+	}
+	return false
+}
+
+// copy(dst, src): the number of bytes copied, min(len(dst), len(src)); src is
+// evaluated first (the builtin is a memmove: overlapping operands behave as if
+// src had been saved), dst[:k] is replaced
+func (t *ftr) copyStmt(c *ast.CallExpr, nDest string) (string, bool) {
+	id, ok := c.Fun.(*ast.Ident)
+	if !ok || id.Name != "copy" || len(c.Args) != 2 {
+		return "", false
+	}
+	if _, isB := info.Uses[id].(*types.Builtin); !isB {
+		return "", false
+	}
+	var ds int
+	switch d := ast.Unparen(c.Args[0]).(type) {
+	case *ast.Ident:
+		ds, ok = t.slotOf(d)
+	case *ast.SelectorExpr:
+		ds, ok = t.fieldSlot(d)
+	default:
+		ok = false
+	}
+	if !ok {
+		return "", false
+	}
+	t.written[ds] = true
+	src := t.newSlot(nil, "_src", types.NewSlice(types.Typ[types.Uint8]))
+	k := t.newSlot(nil, "_k", types.Typ[types.Uint64])
+	parts := []string{
+		fmt.Sprintf("SSet (LVar %d) (%s)", src, t.expr(c.Args[1])),
+		fmt.Sprintf("SIf (ECmp CLt (ELen (EVar %d)) (ELen (EVar %d)))\n(SSet (LVar %d) (ELen (EVar %d)))\n(SSet (LVar %d) (ELen (EVar %d)))", ds, src, k, ds, k, src),
+		fmt.Sprintf("SSet (LVar %d) (EAppendSlice (ESlice (EVar %d) (EN 0) (EVar %d)) (ESlice (EVar %d) (EVar %d) (ELen (EVar %d))))", ds, src, k, ds, k, ds),
+	}
+	if nDest != "LBlank" {
+		parts = append(parts, fmt.Sprintf("SSet (%s) (EVar %d)", nDest, k))
+	}
+	return seq(parts), true
+}
+
 func (t *ftr) blankOrLval(e ast.Expr) (string, bool) {
 	if id, ok := e.(*ast.Ident); ok && id.Name == "_" {
 		return "LBlank", true
@@ -1418,6 +1512,9 @@ func (t *ftr) stmt1(s ast.Stmt) string {
 				return "SSkip"
 			}
 			if st, ok := t.readFull(c, "LBlank", "LBlank"); ok {
+				return st
+			}
+			if st, ok := t.copyStmt(c, "LBlank"); ok {
 				return st
 			}
 			if t.world >= 0 {
@@ -1477,8 +1574,15 @@ func (t *ftr) stmt1(s ast.Stmt) string {
 		}
 		// a call assigned to its destinations (struct-typed values are flattened)
 		if len(x.Rhs) == 1 {
+			if c, ok := ast.Unparen(x.Rhs[0]).(*ast.CallExpr); ok && len(x.Lhs) == 1 {
+				if nd, okD := t.blankOrLval(x.Lhs[0]); okD {
+					if st, okC := t.copyStmt(c, nd); okC {
+						return st
+					}
+				}
+			}
 			if c, ok := ast.Unparen(x.Rhs[0]).(*ast.CallExpr); ok {
-				if isPkgFunc(c, "io", "ReadFull") && len(x.Lhs) == 2 {
+				if t.isExtRead(c) && len(x.Lhs) == 2 {
 					nd, ok1 := t.blankOrLval(x.Lhs[0])
 					ed, ok2 := t.blankOrLval(x.Lhs[1])
 					if ok1 && ok2 {
